@@ -13,6 +13,8 @@ var props = map[string]struct {
 	level string
 	fn    func(*h.Run)
 }{
+	"dbg-conc2": {"other", h.DebugConc2},
+	"dbg-conc": {"other", h.DebugConc},
 	"dbg-c20w": {"other", h.DebugC20W},
 	"dbg-checkcache": {"other", h.DebugCheckCache},
 	"dbg-itercache": {"other", h.DebugIterCache},
